@@ -1,10 +1,13 @@
 #![recursion_limit = "512"]
 mod c03;
+mod c08;
+mod c09;
 mod c11;
 mod c14;
 mod c14seg;
 mod equil;
 mod igcp;
+mod mspec;
 mod red;
 mod thermo;
 mod util;
@@ -15,6 +18,8 @@ fn main() {
     let args = util::parse_args();
     match args.cmd.as_str() {
         "c03" => c03::run(&args),
+        "c08" => c08::run(&args),
+        "c09" => c09::run(&args),
         "c11" => c11::run(&args),
         "c14" => c14::run(&args),
         "thermo" => thermo::run(&args),
